@@ -20,14 +20,112 @@ def emit(obj) -> None:
 
 
 def run_one(check, scn):
-    """Run a scenario; harness exceptions are reported apart from violations."""
-    from dsim import seams
+    """Run a scenario; harness exceptions are reported apart from violations.
+
+    An exception that escapes from the code under test while an oracle is calling
+    it (the innermost frames of the traceback lie in the repository, below the
+    last frame of the harness) is not a harness error: on the unchanged tree no
+    oracle call raises, so the code under test has started to fail where it did
+    not.  It is reported as a violation of `<property>.unexpected-exception`,
+    deterministic and replayable like any other."""
+    import traceback as tb
+
+    from dsim import REPO, seams
+    from dsim.checks import Result
+    from dsim.history import digest
 
     try:
         res = check.run(scn)
+    except Exception as e:  # noqa: BLE001
+        frames = tb.extract_tb(e.__traceback__)
+        last_harness = max((i for i, f in enumerate(frames) if "/dsim/" in f.filename), default=-1)
+        below = [f for f in frames[last_harness + 1:] if f.filename.startswith(REPO.rstrip("/") + "/")]
+        if not below:
+            raise
+        res = Result()
+        res.count("executions")
+        where = f"{os.path.relpath(below[-1].filename, REPO)}:{below[-1].name}"
+        res.violate(f"{check.PROPERTY}.unexpected-exception", "oracle", what=f"{type(e).__name__} in {where}", detail=str(e)[:200],
+                    harness_call=f"{os.path.basename(frames[last_harness].filename)}:{frames[last_harness].lineno}")
+        res.digest = digest(["unexpected-exception", type(e).__name__, where])
     finally:
         seams.Env.uninstall()
     return res
+
+
+class _Res:
+    """A Result rebuilt from what an isolated child sent back."""
+
+    def __init__(self, d) -> None:
+        self.violations = d.get("violations") or []
+        self.stats = d.get("stats") or {}
+        self.sets = {k: set(v) for k, v in (d.get("sets") or {}).items()}
+        self.nontrivial = bool(d.get("nontrivial"))
+        self.discarded = d.get("discarded")
+        self.digest = d.get("digest")
+
+    def clauses(self):
+        return sorted({v["clause"] for v in self.violations})
+
+
+class HarnessError(Exception):
+    pass
+
+
+def run_isolated(check, scn):
+    """Run one scenario in a forked child of this (pristine) interpreter.
+
+    The worker itself never runs a scenario: every run starts from the same
+    post-import process image, so nothing the code under test keeps in
+    process-wide state (module-level caches, class attributes, counters) - and
+    nothing the harness keeps - can leak from one run into the next.  One seed is
+    one exactly repeatable execution, whatever ran before it in the lane."""
+    if os.environ.get("VERIF_ISOLATE", "1") == "0":
+        return run_one(check, scn)
+    sys.stdout.flush()
+    sys.stderr.flush()
+    r, w = os.pipe()
+    pid = os.fork()
+    if pid == 0:
+        code = 0
+        try:
+            os.close(r)
+            res = run_one(check, scn)
+            payload = json.dumps(
+                {
+                    "violations": res.violations,
+                    "stats": res.stats,
+                    "sets": {k: sorted(v) for k, v in res.sets.items()},
+                    "nontrivial": res.nontrivial,
+                    "discarded": res.discarded,
+                    "digest": getattr(res, "digest", None),
+                },
+                default=str,
+            ).encode()
+        except BaseException:  # noqa: BLE001
+            payload = json.dumps({"harness_error": traceback.format_exc()[-4000:]}).encode()
+            code = 1
+        try:
+            with os.fdopen(w, "wb") as f:
+                f.write(payload)
+        finally:
+            os._exit(code)
+    os.close(w)
+    chunks = []
+    while True:
+        b = os.read(r, 1 << 16)
+        if not b:
+            break
+        chunks.append(b)
+    os.close(r)
+    os.waitpid(pid, 0)
+    try:
+        d = json.loads(b"".join(chunks))
+    except Exception as e:  # noqa: BLE001
+        raise HarnessError(f"isolated run died without a result ({e})") from e
+    if "harness_error" in d:
+        raise HarnessError(d["harness_error"])
+    return _Res(d)
 
 
 def condensed(scn) -> dict:
@@ -69,7 +167,7 @@ def main() -> int:
     # ---- replay of a scenario file ------------------------------------------ #
     if cfg.get("replay"):
         scn = json.load(open(cfg["replay"]))
-        res = run_one(check, scn)
+        res = run_isolated(check, scn)
         emit(
             {
                 "type": "replay",
@@ -113,7 +211,7 @@ def main() -> int:
         try:
             scn = check.generate(seed, tier)
             scn["hash_seed"] = int(os.environ.get("PYTHONHASHSEED", "0") or 0)
-            res = run_one(check, scn)
+            res = run_isolated(check, scn)
         except Exception:  # noqa: BLE001
             emit({"type": "harness_error", "i": i, "seed": seed, "trace": traceback.format_exc()[-4000:]})
             return 3
@@ -159,7 +257,7 @@ def main() -> int:
             def fails(cand, clause=clause, what=what):
                 # same clause *and* same kind of failure, so that shrinking cannot
                 # drift to another way of failing the clause
-                r = run_one(check, cand)
+                r = run_isolated(check, cand)
                 return any(v["clause"] == clause and v.get("what") == what for v in r.violations)
 
             t0 = time.monotonic()
@@ -185,7 +283,7 @@ def main() -> int:
                     extra=getattr(check, "extra_shrinkers", ()),
                     budget_s=cfg.get("shrink_s", 40.0),
                 )
-                rs = run_one(check, small)
+                rs = run_isolated(check, small)
             except Exception:  # noqa: BLE001
                 emit({"type": "harness_error", "i": i, "seed": seed, "trace": traceback.format_exc()[-4000:]})
                 return 3
